@@ -162,22 +162,7 @@ func rtDiff(a, b cty.Value, exact bool, path string) *RTDiff {
 
 // matchMembers looks for a bijection between as[i:] and the unused members of bs.
 func matchMembers(as, bs []cty.Value, used []bool, i int, exact bool) bool {
-	if i == len(as) {
-		return true
-	}
-	for j := range bs {
-		if used[j] {
-			continue
-		}
-		if rtDiff(as[i], bs[j], exact, "") == nil {
-			used[j] = true
-			if matchMembers(as, bs, used, i+1, exact) {
-				return true
-			}
-			used[j] = false
-		}
-	}
-	return false
+	return PerfectMatch(len(as)-i, len(bs), used, func(x, j int) bool { return rtDiff(as[i+x], bs[j], exact, "") == nil })
 }
 
 func isExactFloat64(f *big.Float) bool {
